@@ -1,5 +1,6 @@
 import Aldy.Driver.C05
 import Aldy.Driver.C02
+import Aldy.Driver.C03
 
 /-! Line-protocol driver: one JSON object per input line (`{"op": ..., ...}`), one JSON
 object per output line.  Errors are reported as `{"error": msg}`; the driver never guesses. -/
@@ -14,6 +15,10 @@ def dispatch (j : Json) : Except String Json := do
   | "escape" => opEscape j
   | "major_build" => opMajorBuild j
   | "major_filter" => opMajorFilter j
+  | "cn_build" => opCNBuild j
+  | "cn_filter" => opCNFilter j
+  | "cn_fold" => opCNFold j
+  | "cn_decision" => opCNDecision j
   | "ping" => pure (objJ [("pong", boolJ true)])
   | _ => .error s!"unknown op {op}"
 
